@@ -116,6 +116,7 @@ func (ctx *context) ActiveConnections() []net.Conn {
 			connections = append(connections, s.Connection())
 		}
 	}
+	connections = verifOrderConns(connections)
 
 	return connections
 }
